@@ -200,7 +200,16 @@ fn first_divergence(code: &[u8], knobs: &Knobs, scheds: &[Sched], res: Option<&m
     // the same run after fourteen others must still be the same run.
     let again = scheds[0].clone();
     let sweep: Vec<&Sched> = scheds.iter().chain(std::iter::once(&again)).collect();
+    // Runs of this sweep that ran out of the step budget, if none has
+    // finished yet: such runs are left out of the comparison, and when the
+    // first three all ended that way the remaining dozens would too - there is
+    // nothing to compare, only minutes of wall time to spend.
+    let mut exhausted_so_far = 0usize;
+    let mut finished_any = false;
     for (i, s) in sweep.into_iter().enumerate() {
+        if !finished_any && exhausted_so_far >= 3 {
+            break;
+        }
         let i = if i == scheds.len() { 0 } else { i };
         // (a replay of two schedules out of the sweep keeps their positions)
         let i = POSITIONS.with(|p| p.borrow().as_ref().and_then(|v| v.get(i).copied()).unwrap_or(i));
@@ -225,6 +234,7 @@ fn first_divergence(code: &[u8], knobs: &Knobs, scheds: &[Sched], res: Option<&m
         let out = sim::run(&sc, &opts);
         sim::set_own_table(false);
         if out.budget_exhausted {
+            exhausted_so_far += 1;
             if let Some(r) = res.as_deref_mut() {
                 r.runs += 1;
                 r.steps += out.polls;
@@ -235,6 +245,7 @@ fn first_divergence(code: &[u8], knobs: &Knobs, scheds: &[Sched], res: Option<&m
             }
             continue;
         }
+        finished_any = true;
         if let Some(r) = res.as_deref_mut() {
             r.runs += 1;
             r.steps += out.record.site_ticks.iter().sum::<u64>();
